@@ -333,6 +333,13 @@ def run_resume(case, R):
             items = RefPairVerify.resume_m2(acc, old_shared, sid, method=[None, b"\x00", b"\x02", b"\x07"][fault[1] % 4])
         elif name == "flip-tag":
             items = [(t, flip(v, fault[1]) if t == T_ENC else v) for t, v in honest]
+        elif name == "truncate-tag":
+            items = [(t, v[:1 + fault[1] % 15] if t == T_ENC else v) for t, v in honest]
+        elif name == "truncate-raw":
+            raw = tlv_enc(honest)
+            return raw[:1 + fault[1] % (len(raw) - 1)]
+        elif name == "extend-tag":
+            items = [(t, v + bytes([fault[1] & 0xFF]) if t == T_ENC else v) for t, v in honest]
         elif name == "flip-sid":
             items = [(t, flip(v, fault[1]) if t == T_SESSIONID else v) for t, v in honest]
         elif name == "drop":
@@ -413,7 +420,7 @@ def full_cases(draw):
     return case
 
 
-RESUME_FAULTS = ["none", "none", "refused", "wrong-secret", "wrong-hkdf-sid", "wrong-label", "wrong-info", "method", "flip-tag", "flip-sid",
+RESUME_FAULTS = ["none", "none", "refused", "truncate-tag", "truncate-raw", "extend-tag", "wrong-secret", "wrong-hkdf-sid", "wrong-label", "wrong-info", "method", "flip-tag", "flip-sid",
                  "drop", "nonempty-plaintext", "replayed-reply"]
 
 
@@ -448,7 +455,18 @@ def enum_families(tier):
 def enum_resume(tier):
     i = 0
     for name in sorted(set(RESUME_FAULTS)):
-        reps = range(4) if name in ("wrong-label", "method", "drop", "wrong-info") else ([0] if name not in ("flip-tag", "flip-sid") else range(0, 128 if name == "flip-tag" else 64))
+        if name in ("wrong-label", "method", "drop", "wrong-info"):
+            reps = range(4)
+        elif name == "flip-tag":
+            reps = range(128)
+        elif name == "flip-sid":
+            reps = range(64)
+        elif name == "truncate-tag":
+            reps = range(15)
+        elif name == "truncate-raw":
+            reps = range(0, 36)
+        else:
+            reps = [0]
         for p in reps:
             for chain in (0, 1):
                 i += 1
@@ -465,7 +483,7 @@ SPEC = Property(
           "and of the inner Identifier/Signature (exhaustive per exchange), byte substitution, field removal/duplication/reordering "
           "(outer and inner), signature by another key, another identifier, permuted transcript, M2 of another exchange, relayed inner "
           "signature, wrong-length/zero PublicKey, truncation, wrong key/nonce label; resume: honest, chained, refused, wrong secret/session "
-          "id/label/info/method, all tag and session-id bit flips, replayed resume reply. Replies are decoded the way IP/CoAP (expected "
+          "id/label/info/method, all tag and session-id bit flips, tag truncated to 1..15 bytes or extended, resume reply truncated at every byte, replayed resume reply. Replies are decoded the way IP/CoAP (expected "
           "list) and BLE (no list) decode them. Non-trivial: every faulty or resumed case; honest full verifies are counted as trivial."),
     layers=[
         Layer("m2-bit-flips", run_flips, enumerate=enum_flips, exhaustive=True,
